@@ -139,7 +139,7 @@ def strategy(tier):
             elif solver == "diag":
                 c["storage"] = draw(st.sampled_from(["dense", "csc", "csr", "coo", "dia"]))
             else:
-                c["storage"] = draw(st.sampled_from(["dense", "dense", "csc", "csr", "coo"]))
+                c["storage"] = draw(st.sampled_from(["dense", "dense", "csc", "csr", "coo", "diafull", "dia0", "lil"]))
             if kind in COMPLEX_ONLY:
                 c["cplx"] = True
             elif kind in ("sym_indef", "diag_real"):
@@ -274,6 +274,14 @@ def to_storage(Ad, storage):
         return sps.coo_matrix(Ad)
     if storage == "dia":
         return sps.spdiags(np.diag(Ad), 0, Ad.shape[0], Ad.shape[1])
+    if storage in ("diafull", "dia0"):      # general matrices in DIA storage; dia0 stores the main diagonal first
+        d = sps.dia_matrix(Ad)
+        if storage == "dia0" and 0 in d.offsets:
+            order = np.argsort(d.offsets != 0, kind="stable")
+            d = sps.dia_matrix((d.data[order], d.offsets[order]), shape=d.shape)
+        return d
+    if storage == "lil":
+        return sps.lil_matrix(Ad)
     raise ValueError(storage)
 
 
@@ -534,7 +542,7 @@ def check_case(case):
         tr, _, b, rdt, _ = prepared[0]
         Ad2 = Ad * fac
         try:
-            writable = A.flags.writeable if storage == "dense" else A.data.flags.writeable
+            writable = A.flags.writeable if storage == "dense" else (A.data.flags.writeable and A.data.dtype != object)
             if re == "inplace" and writable:
                 if storage == "dense":
                     A[...] = Ad2
